@@ -864,3 +864,43 @@ Theorem ancestors_glue frs gp : (forall h, parent_of frs h = gp h) ->
 Proof.
   intros Hp. induction fuel as [|fuel IH]; intro h; [reflexivity|]. cbn. rewrite Hp. destruct (gp h); [now rewrite IH|reflexivity].
 Qed.
+
+(* ------------------------------------------------------------ non-trivial demo states (used by the
+   hypothesis-satisfiability Examples of Props/C03, C04, C06, C10) *)
+Ltac nodup_concrete := cbn; repeat (apply NoDup_cons; [cbn; intuition discriminate|]); apply NoDup_nil.
+Ltac wf_concrete :=
+  split; [|split; [|split]];
+  [ intros u h1 h2 H1 H2; cbn in H1, H2; intuition congruence
+  | nodup_concrete
+  | nodup_concrete
+  | repeat (apply Forall_cons; [intro u; cbn; tauto|]); apply Forall_nil ].
+
+(* fragment 0: a root with two children, one of them the placeholder (href -> id 20) of fragment 1's root *)
+Definition d_nodes : list node :=
+  [mkNode 1 None (Some 100) [10] [10] None; mkNode 2 (Some 1) (Some 101) [11] [11] None;
+   mkNode 3 (Some 1) (Some 102) [] [] (Some 20)].
+(* a subtree of two elements attached below element 2 *)
+Definition d_add : list node :=
+  [mkNode 4 (Some 2) (Some 101) [12] [12] None; mkNode 5 (Some 4) None [13] [13] None].
+(* fragment 1: root (id 20) with one child *)
+Definition d2_nodes : list node :=
+  [mkNode 6 None (Some 100) [20] [20] None; mkNode 7 (Some 6) (Some 101) [21] [21] None].
+Definition d_ix : index := Eval vm_compute in match rebuild false d_nodes with ROk ix => ix | RErr _ => empty_index end.
+Definition d2_ix : index := Eval vm_compute in match rebuild false d2_nodes with ROk ix => ix | RErr _ => empty_index end.
+Definition d_frag : frag := mkFrag 0 Semantic d_nodes d_ix.
+Definition d2_frag : frag := mkFrag 1 Semantic d2_nodes d2_ix.
+Definition d_forest : list frag := [d_frag; d2_frag].
+
+Lemma d_nodes_wf : WF d_nodes. Proof. wf_concrete. Qed.
+Lemma d2_nodes_wf : WF d2_nodes. Proof. wf_concrete. Qed.
+Lemma d_attach_wf : WF (fnodes d_frag ++ d_add). Proof. wf_concrete. Qed.
+Lemma d_frag_ok : FragOK d_frag.
+Proof. destruct (load_ok 0 Semantic d_nodes d_nodes_wf) as [ix [E H]]. vm_compute in E. injection E as <-. exact H. Qed.
+Lemma d2_frag_ok : FragOK d2_frag.
+Proof. destruct (load_ok 1 Semantic d2_nodes d2_nodes_wf) as [ix [E H]]. vm_compute in E. injection E as <-. exact H. Qed.
+Lemma d_forest_ok : FragsOK d_forest.
+Proof. apply Forall_cons; [exact d_frag_ok|]. apply Forall_cons; [exact d2_frag_ok|apply Forall_nil]. Qed.
+Lemma d_forest_nodup : NoDup d_forest.
+Proof. apply NoDup_cons; [intros [E|[]]; apply (f_equal fname) in E; discriminate E|]. apply NoDup_cons; [intros []|apply NoDup_nil]. Qed.
+Lemma d_forest_handles : GlobalHandles d_forest.
+Proof. unfold GlobalHandles. nodup_concrete. Qed.
